@@ -106,6 +106,22 @@ Theorem C04_cascade_verbosity :
     else if has FV fl || match yv with YWarning => true | _ => false end then 1 else 0.
 Proof. exact cascade_verbosity. Qed.
 
+(* stated explicitly: for one input and one override table the exit status and the counts are the same under every
+   combination of -json / -v / -vv *)
+Theorem C04_json_plain_same_exit :
+  forall ov x j v j' v',
+    exit (run_lint {| json := j; verbosity := v; overrides := ov |} x) = exit (run_lint {| json := j'; verbosity := v'; overrides := ov |} x) /\
+    summary (run_lint {| json := j; verbosity := v; overrides := ov |} x) = summary (run_lint {| json := j'; verbosity := v'; overrides := ov |} x).
+Proof. exact json_plain_same_exit. Qed.
+
+(* the flag names -json / -v / -vv and the values of the yaml key `verbose` are the ones config/config.go declares
+   (regenerated): each maps to its flag / level *)
+Theorem C04_config_spellings :
+  map flag_of_name [flag_json; flag_verbose_warning; flag_verbose_info] = [Some FJson; Some FV; Some FVV] /\
+  map (fun p => yverbose_of (Some (fst p))) yaml_verbose_levels = [YWarning; YInfo] /\
+  yverbose_of None = YNone.
+Proof. exact config_spellings_ok. Qed.
+
 (* -json with several files (includes): one entry per file that has a non-ignored diagnostic, holding exactly
    that file's diagnostics in order with their effective severity; nothing dropped, nothing listed twice *)
 Theorem C04_doc_files_spec :
@@ -161,3 +177,5 @@ Print Assumptions C04_doc_files_spec.
 Print Assumptions C04_doc_files_total.
 Print Assumptions C04_stats_exit_iff.
 Print Assumptions C04_spellings.
+Print Assumptions C04_json_plain_same_exit.
+Print Assumptions C04_config_spellings.
